@@ -62,26 +62,27 @@ Theorem C09_own_steps_never_stale_bounded :
   forall b ss kl kr,
     prepared (mk_input n ov ol tv tl lok m force) = Some b ->
     build (mk_input n ov ol tv tl lok m force) = Built ss kl kr ->
-    excluded b = false ->                       (* the plans C08 refutes *)
-    readded_same_id ss = false ->               (* the class refuted below *)
     plan_runs_ok (i_region (mk_input n ov ol tv tl lok m force)) ss = true.
 Proof. exact own_steps_never_stale_bounded_pf. Qed.
 
-(* ---- own_steps_never_stale, full statement: refuted on the unchanged code ---- *)
-Definition C09_own_steps_never_stale_full : Prop :=
+(* ---- the input on which the builder's plan was judged stale on its own steps before the repair: the re-added
+        peer now gets a new id and the plan runs to SUCCESS ---- *)
+Theorem C09_readded_peer_repaired :
+  build stale_input = Built fresh_plan false true /\ plan_runs_ok stale_region fresh_plan = true.
+Proof. split; [exact fresh_plan_is_built|exact fresh_plan_runs]. Qed.
+
+(* ---- own_steps_never_stale for ARBITRARY accepted plans needs the hypothesis "no peer is removed and re-added with
+        the same id": the plan the unrepaired builder produced is accepted by the C08 checker and still cancelled ---- *)
+Definition C09_own_steps_never_stale_any_plan : Prop :=
   forall r0 g ss, plan_ok g r0 ss = true -> plan_runs_ok r0 ss = true.
 
-Theorem C09_own_steps_never_stale_refuted : ~ C09_own_steps_never_stale_full.
+Theorem C09_own_steps_never_stale_needs_fresh_ids : ~ C09_own_steps_never_stale_any_plan.
 Proof.
   intros F. destruct stale_plan_accepted_by_checker as (b & _ & Hok).
   specialize (F stale_region (goal_of b) stale_plan Hok).
   assert (E : plan_runs_ok stale_region stale_plan = false) by (vm_compute; reflexivity).
   rewrite E in F. clear Hok. discriminate F.
 Qed.
-
-(* the same plan is what the builder model (hence, by the correspondence check, the real builder) produces *)
-Theorem C09_refutation_plan_is_the_builders : build stale_input = Built stale_plan false true.
-Proof. exact stale_plan_is_built. Qed.
 
 (* ---- step accounting: an unapplied, unfinished, safe step counts nothing — refuted for ChangePeerV2Leave (S2) ---- *)
 Definition C09_unapplied_step_counts_nothing_full : Prop :=
@@ -199,8 +200,8 @@ Print Assumptions C09_ended_stays.
 Print Assumptions C09_one_op_per_region.
 Print Assumptions C09_admitted_epoch_equal.
 Print Assumptions C09_own_steps_never_stale_bounded.
-Print Assumptions C09_own_steps_never_stale_refuted.
-Print Assumptions C09_refutation_plan_is_the_builders.
+Print Assumptions C09_readded_peer_repaired.
+Print Assumptions C09_own_steps_never_stale_needs_fresh_ids.
 Print Assumptions C09_unapplied_step_counts_nothing_refuted.
 Print Assumptions C09_joint_state_admits_only_leave.
 Print Assumptions C09_left_running_is_ended.
